@@ -58,6 +58,26 @@ fn run<T: C>(case: &Value) -> Option<Vec<(&'static str, Value)>> {
                 let out: Vec<Vec<i64>> = it.take(gi(case, "take") as usize).map(|v| v.comps().iter().map(|x| s(*x)).collect()).collect();
                 vec![("out", json!(out))]
             }
+            "skip" => {
+                let step = T::dmake(&fl(&case["step"]));
+                let max = gi(case, "max");
+                let mut it = from.vary(step, if max < 0 { None } else { Some(max as u32) });
+                let (kn, take) = (gi(case, "kn") as usize, gi(case, "take") as usize);
+                let conv = |v: T| -> Vec<i64> { v.comps().iter().map(|x| s(*x)).collect() };
+                let out: Vec<Vec<i64>> = match gs(case, "how") {
+                    "nth" => {
+                        // nth(kn), then keep iterating the same iterator
+                        let mut o: Vec<Vec<i64>> = it.nth(kn).into_iter().map(conv).collect();
+                        if !o.is_empty() {
+                            o.extend(it.take(take - 1).map(conv));
+                        }
+                        o
+                    }
+                    "skip" => it.skip(kn).take(take).map(conv).collect(),
+                    _ => it.step_by(kn).take(take).map(conv).collect(),
+                };
+                vec![("out", json!(out))]
+            }
             "vary_to" => {
                 let to = T::make(&fl(&case["to"]));
                 let out: Vec<Vec<i64>> = from.vary_to(to, gi(case, "n") as u32).take(10_000).map(|v| v.comps().iter().map(|x| s(*x)).collect()).collect();
@@ -105,6 +125,13 @@ pub fn gen(args: &Args, out: &mut dyn Write) {
         let (ty, nc) = tys[i % tys.len()];
         let v = |rng: &mut Rng, lim: i64| -> Vec<i64> { (0..nc).map(|_| rng.range(-lim, lim)).collect() };
         let key = format!("v{}-{}", args.seed, i);
+        if i % 7 == 6 {
+            let how = ["nth", "skip", "step_by"][(i / 7) % 3];
+            writeln!(out, "{}", json!({"k": key, "op": "skip", "ty": ty, "from": v(&mut rng, 50), "step": v(&mut rng, 5),
+                                         "max": *rng.pick(&[-1i64, 0, 1, 3, 10, 40]), "how": how,
+                                         "kn": rng.range(if how == "step_by" { 1 } else { 0 }, 5), "take": rng.range(1, 8)})).unwrap();
+            continue;
+        }
         match i % 3 {
             0 => writeln!(out, "{}", json!({"k": key, "op": "vary", "ty": ty, "from": v(&mut rng, 50), "step": v(&mut rng, 5),
                                              "max": *rng.pick(&[-1i64, 0, 1, 3, 10, 40]), "take": rng.range(0, 30)})).unwrap(),
